@@ -359,7 +359,7 @@ func readyClosedOnce(c *core.Ctx) {
 				sites++
 				ctor := false
 				for _, c2 := range astx.Calls(fd.Body) {
-					if f := astx.CalleeFunc(info, c2); f != nil && f.Name() == "newDuplexHTTPCall" && c2.Pos() < call.Pos() {
+					if f := astx.CalleeFunc(info, c2); f != nil && f.Name() == "newDuplexHTTPCall" && astx.Precedes(fd.Body, c2, call) {
 						ctor = true
 					}
 				}
